@@ -373,3 +373,51 @@ collect:
 		r.Count(scenario + ".first_not_delivered")
 	}
 }
+
+// c19HttpRefused (scenario clean): the PEER refuses an envelope — it answers the POST with a status
+// other than 200 because the connection the envelope is for was retired there while the request was
+// waiting for a reader (idle timeout under the fake clock). The envelope was not delivered, so the
+// sender's Write must not report success.
+func c19HttpRefused(r *Run) {
+	scenario := "clean.refused"
+	r.Progress(scenario, nil)
+	hooks.Reset(true)
+	defer hooks.Reset(false)
+	interval, timeout := 10*time.Second, 20*time.Second
+	clk := clockwork.NewFakeClock()
+	peer := c19NewNode(c19IdentityMapper, goat.WithClock(clk), goat.WithConnectionCleanupInterval(interval), goat.WithConnectionTimeout(timeout))
+	defer peer.Close()
+	if !within(hangTimeout, func() { clk.BlockUntil(1) }) {
+		r.Violate(scenario, "schedule", "the cleaner never created its ticker", nil, nil, nil)
+		return
+	}
+	fc := &c19Clock{clk: clk, interval: interval}
+	sender := c19NewNode(c19IdentityMapper)
+	defer sender.Close()
+	w := sender.goh.NewConnection(peer.addr)
+	ctx, cancel := context.WithTimeout(context.Background(), 3*hangTimeout)
+	defer cancel()
+	res := make(chan error, 1)
+	go func() { res <- w.Write(ctx, &Rpc{Id: 3, Header: &goatorepo.RequestHeader{Source: "writer", Method: "/s/m"}}) }()
+	// the request is inside the peer's ServeHTTP, waiting for a reader that never comes
+	select {
+	case <-peer.conns:
+	case <-time.After(hangTimeout):
+		r.Violate(scenario, "schedule", "the peer never announced the connection", nil, nil, nil)
+		return
+	}
+	time.Sleep(5 * time.Millisecond)
+	if _, ok := fc.tickUntilUnregistered("writer", 0, 6); !ok {
+		r.Count(scenario + ".not_unregistered")
+	}
+	r.Eval(scenario, true)
+	select {
+	case err := <-res:
+		if err == nil {
+			r.Violate(scenario, "schedule", "the peer refused the envelope (its connection for the sender was retired while the request waited: HTTP 503) but Write reported success: the envelope is silently lost",
+				map[string]any{"peer": "no reader; idle timeout while the POST waits", "peer_deliveries": c19CountSite("http.deliver")}, "Write returned nil", "an error")
+		}
+	case <-time.After(2 * hangTimeout):
+		r.Violate(scenario, "schedule", "Write did not return after the peer had answered", nil, goroutineDump(), nil)
+	}
+}
